@@ -2,6 +2,8 @@
 from harness import asmgen
 from harness import armgen
 from harness import x64gen
+from harness import mipsgen
+from harness import m68kgen
 from engines.c08 import report, restrict
 
 
@@ -12,6 +14,8 @@ class Engine:
         thorough = (ctx.only.get("tier", ctx.tier) if ctx.only else ctx.tier) == "thorough"
         if armgen.c07_part(ctx, thorough): return  # thumb / arm (tla/Thumb.tla, tla/Arm32.tla); True: a replay of one of its cases
         if x64gen.c07_part(ctx, thorough): return  # x86_64 (tla/X64.tla); True: a replay of one of its cases
+        if mipsgen.c07_part(ctx, thorough): return  # mips (tla/Mips.tla); True: a replay of one of its cases
+        if m68kgen.c07_part(ctx, thorough): return  # m68k (tla/M68k.tla); True: a replay of one of its cases
         ctx.rule("every instruction class and macro-instruction class of ppci.arch.riscv (isa, rvcisa) x {register "
                  "sweeps (quick: x0 x1 x2 x8 x10 x15 x31), diagonal, in-range boundary immediates / "
                  "displacements from TLC}; ppci supplies the bytes and used_registers / defined_registers / clobbers; "
